@@ -99,6 +99,7 @@ PROFILES = {
     "overrideset": dict(BASE, ctx_types=("override", "attr"), p_ctx=0.5, nvars=2, p_read=0.5, p_set=0.5, p_share=0.1),
     "again": dict(BASE, ntasks=(2, 7), nseg=(2, 4), nleaf=(1, 4), p_rep=0.35, p_reuse=0.35, p_lazy=0.15, p_lazyfail=0.05, p_share=0.1, p_reyield=0.2,
                   flush_modes=("ok", "ok", "itemerr"), p_catch=0.4, p_errleaf=0.05),
+    "nestflush": dict(BASE, ntasks=(2, 7), nkinds=(2, 3), bases=(0, 1), nest=True, p_item=0.55, p_task=0.3, p_share=0.1, p_catch=0.3, ncalls=2),
     "everything": dict(BASE, ntasks=(2, 8), nkinds=(1, 3), bases=(0, 1), p_share=0.1, p_reyield=0.05,
                        flush_modes=("ok", "ok", "itemerr", "skip", "raise"), p_raise=0.08, p_errleaf=0.04, p_bad=0.03,
                        p_catch=0.35, p_sync=0.15, ctx_types=("async", "override"), p_ctx=0.35, nvars=1, p_read=0.3),
@@ -315,6 +316,12 @@ class Gen(object):
             break
         tasks = [self.tasks[i] for i in range(1, self.next)]
         kinds = [kind(r.choice(p["bases"]), r.choice(p["flush_modes"])) for _ in range(self.nk)]
+        if p.get("nest"):
+            # kind 1's flush body calls, synchronously, a task that needs a request of kind 2
+            kinds[0]["flush"] = "nest"
+            kinds[0]["nest"] = len(tasks) + 1
+            kinds[1]["flush"] = "ok"
+            tasks.append({"segs": [seg([], term("yield", S("Lst", 0, [S("I", 2)] * r.randint(1, 3)))), seg([], term("return"))]})
         calls = [{"root": u, "conv": r.choice(p["convs"])} for u in roots]
         prog = program(tasks, kinds, self.ctxs, p["nvars"], calls)
         if p.get("maxstack"):
